@@ -145,3 +145,40 @@ Theorem C12_splice_in_header_program :
   end.
 Proof. exact splice_in_header_program. Qed.
 Print Assumptions C12_splice_in_header_program.
+
+(* ---- the same WITHOUT the realignment hypothesis: the part after the splice holds a lexeme after which the column is 1
+   wherever the part started - a newline (PS (PWs 10)) or a block comment with a newline in its body (has_newline, decidable).
+   Proofs/SpliceBetween.v realigned_line: every component of the state after a lexeme depends on the same component before it
+   only (the column on the column; nexts2_param), and after such a lexeme the column depends on nothing. *)
+Theorem C12_splice_between_lexemes_line : forall (uw ud : N -> bool) sp ls1 ls2 X itemsB xfB,
+  sp = splice1 \/ sp = splice2 ->
+  lexs_ok2 ls1 (sp ++ raws2 ls2 ++ X) = true -> lexs_ok2 ls1 (raws2 ls2 ++ X) = true -> lexs_ok2 ls2 X = true ->
+  has_newline ls2 = true ->
+  let n := List.length sp in
+  let pB := lex_nexts2 pos0 ls1 in
+  let pA := after_splice n pB in
+  lex uw ud (raws2 ls1 ++ raws2 ls2 ++ X) = Ok (itemsB, xfB) ->
+  exists later itemsA,
+    itemsB = lex_items2 pos0 ls1 ++ lex_items2 pB ls2 ++ later /\
+    itemsA = lex_items2 pos0 ls1 ++ ISkip (off pB) (off pB + n) :: lex_items2 pA ls2 ++ map (sh_item 1 n) later /\
+    lex uw ud (raws2 ls1 ++ sp ++ raws2 ls2 ++ X) = Ok (itemsA, shl 1 n xfB) /\
+    map kv (tokens_of itemsA) = map kv (tokens_of itemsB).
+Proof. exact splice_between_lexemes_line. Qed.
+Print Assumptions C12_splice_between_lexemes_line.
+
+Theorem C12_realigned_line : forall n pB ls2 X, lexs_ok2 ls2 X = true -> has_newline ls2 = true -> errs pB = [] ->
+  realigned n pB ls2.
+Proof. exact realigned_line. Qed.
+Print Assumptions C12_realigned_line.
+
+(* the decomposition form: ls2 = ls2a ++ newline :: ls2b *)
+Theorem C12_has_newline_mid : forall a b, has_newline (a ++ PS (PWs 10) :: b) = true.
+Proof. exact has_newline_mid. Qed.
+Print Assumptions C12_has_newline_mid.
+
+(* non-vacuity: the part after the splice in C12_splice_in_header_program holds a newline; a // comment alone does not *)
+Theorem C12_splice_line_example :
+  has_newline sp_ls2 = true /\ has_newline [PS (PWs 32); PBlock (s " a" ++ [10%N] ++ s " b ")] = true /\
+  has_newline [PS (PWs 32); PLine (s " x")] = false.
+Proof. exact splice_line_example. Qed.
+Print Assumptions C12_splice_line_example.
